@@ -379,6 +379,114 @@ theorem fillFront_steps (sv : Bool) (a : Int) (n : Nat) (xs : List Int) :
       · rfl
       · exact hk o h
 
+/-! ### kept handles (`Spec.C19.AllowedH`, `moveIdx`)
+
+A handle used right after `Find` designates the first occurrence: there the clauses for kept handles say exactly what
+the value-addressed clauses say. -/
+
+theorem mem_of_idxOf? {xs : List Int} {x : Int} {p : Nat} (h : xs.idxOf? x = some p) : x ∈ xs := by
+  by_cases hx : x ∈ xs
+  · exact hx
+  · have := List.idxOf?_eq_none_iff.mpr hx; rw [this] at h; cases h
+
+theorem insertAfterFirst_eq {x v : Int} : ∀ {xs : List Int} {p : Nat}, xs.idxOf? x = some p →
+    insertAfterFirst x v xs = xs.take (p + 1) ++ v :: xs.drop (p + 1)
+  | [], _, h => by simp at h
+  | y :: r, p, h => by
+    by_cases hy : y = x
+    · subst hy
+      have : p = 0 := by simpa [List.idxOf?_cons] using h.symm
+      subst this; simp [insertAfterFirst]
+    · have hb : (y == x) = false := by simpa using hy
+      rw [List.idxOf?_cons] at h
+      simp only [hb] at h
+      cases hq : r.idxOf? x with
+      | none => simp [hq] at h
+      | some q =>
+        simp [hq] at h; subst h
+        simp [insertAfterFirst, hy, insertAfterFirst_eq hq]
+
+theorem insertBeforeFirst_eq {x v : Int} : ∀ {xs : List Int} {p : Nat}, xs.idxOf? x = some p →
+    insertBeforeFirst x v xs = xs.take p ++ v :: xs.drop p
+  | [], _, h => by simp at h
+  | y :: r, p, h => by
+    by_cases hy : y = x
+    · subst hy
+      have : p = 0 := by simpa [List.idxOf?_cons] using h.symm
+      subst this; simp [insertBeforeFirst]
+    · have hb : (y == x) = false := by simpa using hy
+      rw [List.idxOf?_cons] at h
+      simp only [hb] at h
+      cases hq : r.idxOf? x with
+      | none => simp [hq] at h
+      | some q =>
+        simp [hq] at h; subst h
+        simp [insertBeforeFirst, hy, insertBeforeFirst_eq hq]
+
+theorem insertAfterH_fresh {sv : Bool} {xs xs' : List Int} {x v : Int} {p : Nat} {ans : Ans}
+    (h : xs.idxOf? x = some p) :
+    Allowed sv xs (.insertAfter x v) ans xs' ↔ AllowedH xs (.insertAfterH p v) ans xs' := by
+  simp only [Allowed, AllowedH, mem_of_idxOf? h, if_true, insertAfterFirst_eq h]
+
+theorem insertBeforeH_fresh {sv : Bool} {xs xs' : List Int} {x v : Int} {p : Nat} {ans : Ans}
+    (h : xs.idxOf? x = some p) :
+    Allowed sv xs (.insertBefore x v) ans xs' ↔ AllowedH xs (.insertBeforeH p v) ans xs' := by
+  simp only [Allowed, AllowedH, mem_of_idxOf? h, if_true, insertBeforeFirst_eq h]
+
+theorem deleteH_fresh {sv : Bool} {xs xs' : List Int} {x : Int} {p : Nat} {ans : Ans}
+    (h : xs.idxOf? x = some p) :
+    Allowed sv xs (.delete x) ans xs' ↔ AllowedH xs (.deleteH p) ans xs' := by
+  have hx : x ∈ xs := mem_of_idxOf? h
+  simp only [Allowed, AllowedH, hx, if_true]
+  have : xs.erase x = xs.eraseIdx p := by
+    rw [List.erase_eq_eraseIdx]; simp [h]
+  rw [this]
+
+
+/-- the sequence after an edit -/
+def applyEdit (v : Int) (xs : List Int) : Edit → List Int
+  | .ins p => xs.take p ++ v :: xs.drop p
+  | .del p => xs.eraseIdx p
+  | .none => xs
+
+/-- the bookkeeping of kept handles follows the ELEMENT: wherever `moveIdx` still designates a position, that position
+holds the element the handle designated before the edit -/
+theorem moveIdx_follows_element (dbl : Bool) (v : Int) (xs : List Int) (e : Edit) (i j : Nat)
+    (_hi : i < xs.length) (hp : ∀ p, e = .ins p → p ≤ xs.length) (h : moveIdx dbl e i = some j) :
+    (applyEdit v xs e)[j]? = xs[i]? := by
+  cases e with
+  | none => simp [moveIdx] at h; subst h; rfl
+  | ins p =>
+    have hpl := hp p rfl
+    simp only [moveIdx, Option.some.injEq] at h
+    subst h
+    simp only [applyEdit]
+    by_cases hpi : p ≤ i
+    · simp only [hpi, if_true]
+      rw [List.getElem?_append_right (by simp; omega)]
+      simp only [List.length_take, Nat.min_eq_left hpl]
+      have : i + 1 - p = (i - p) + 1 := by omega
+      rw [this, List.getElem?_cons_succ, List.getElem?_drop]
+      congr 1; omega
+    · simp only [hpi, if_false]
+      rw [List.getElem?_append_left (by simp; omega)]
+      rw [List.getElem?_take_of_lt (by omega)]
+  | del p =>
+    simp only [moveIdx] at h
+    simp only [applyEdit]
+    split at h
+    · cases h
+    · split at h
+      · simp only [Option.some.injEq] at h; subst h
+        rw [List.getElem?_eraseIdx_of_lt (by omega)]
+      · split at h
+        · cases h
+        · split at h
+          · cases h
+          · simp only [Option.some.injEq] at h; subst h
+            rw [List.getElem?_eraseIdx_of_ge (by omega)]
+            congr 1; omega
+
 theorem insertAfterFirst_sublist (x v : Int) (xs : List Int) : xs.Sublist (insertAfterFirst x v xs) := by
   induction xs with
   | nil => exact List.Sublist.refl _
